@@ -595,3 +595,30 @@ pub fn decorate(feats: &mut [FeatSpec], r: &mut Rng, cdata: bool) {
         }
     }
 }
+
+/// Makes step texts repeat inside scenarios (and between a background and a
+/// scenario's last step): steps are then distinguishable by position only.
+pub fn repeat_step_texts(feats: &mut [FeatSpec], r: &mut Rng) {
+    for f in feats.iter_mut() {
+        let mut last_texts: Vec<String> = Vec::new();
+        let mut scs: Vec<&mut ScSpec> = f.scenarios.iter_mut().collect();
+        for rule in f.rules.iter_mut() {
+            scs.extend(rule.scenarios.iter_mut());
+        }
+        for sc in scs {
+            let n = sc.steps.len();
+            if n >= 2 && r.chance(1, 2) {
+                let j = r.below(n - 1);
+                let t = sc.steps[n - 1].text.clone();
+                sc.steps[j].text = t;
+            }
+            if let Some(l) = sc.steps.last() {
+                last_texts.push(l.text.clone());
+            }
+        }
+        if !f.bg.is_empty() && !last_texts.is_empty() && r.chance(1, 3) {
+            let k = r.below(f.bg.len());
+            f.bg[k].text = r.pick(&last_texts).clone();
+        }
+    }
+}
